@@ -151,7 +151,7 @@ func (x *xf) rewriteSelect(s *ast.SelectStmt) ast.Stmt {
 		switch c := cc.Comm.(type) {
 		case *ast.SendStmt:
 			cases = append(cases, x.call("CaseSend", c.Chan))
-			first = &ast.ExprStmt{X: x.call("SendNow", c.Chan, c.Value)}
+			first = &ast.ExprStmt{X: &ast.CallExpr{Fun: x.call("SendNowTo", c.Chan), Args: []ast.Expr{c.Value}}}
 		case *ast.ExprStmt:
 			u, ok := isArrow(c.X)
 			if !ok {
@@ -341,7 +341,9 @@ func (x *xf) apply() {
 		case *ast.GoStmt:
 			c.Replace(x.rewriteGo(n))
 		case *ast.SendStmt:
-			c.Replace(&ast.ExprStmt{X: x.call("Send", n.Chan, n.Value)})
+			// SendTo(ch)(v): the element type is inferred from the channel alone, so a concrete value sent on a channel of
+			// an interface type is converted by the ordinary assignment rules
+			c.Replace(&ast.ExprStmt{X: &ast.CallExpr{Fun: x.call("SendTo", n.Chan), Args: []ast.Expr{n.Value}}})
 			counts["send"]++
 		case *ast.AssignStmt:
 			if len(n.Lhs) == 2 && len(n.Rhs) == 1 {
